@@ -33,4 +33,9 @@ inst("remove","IdList<T>::remove(T* elem), then next / prev",3,[{"name":"no_back
 inst("remove_next","IdList<T>::remove_next(T* after), then next / prev",4,[{"name":"self","slice":"IdList_remove_next.inc","find":"remove(next(after));","replace":"remove(after);"}])
 inst("queries","IdList<T>::next(const T*) / prev(const T*) / first() / last()",5,[{"name":"next_end","slice":"IdList_next.inc","find":"(elem == last())","replace":"(elem == first())"},
    {"name":"prev_end","slice":"IdList_prev.inc","find":"(elem == first())","replace":"(elem == last())"}])
+EXPECTED_S={'append': 8, 'prepend': 8, 'insert': 9, 'remove': 9, 'remove_next': 10, 'queries': 8}
+THOROUGH_ONLY=[]
+for _i in u["instances"]:
+    if _i["name"] in EXPECTED_S: _i["expected_s"]=EXPECTED_S[_i["name"]]
+    if _i["name"] in THOROUGH_ONLY: _i["tier"]="thorough"
 json.dump(u, open(os.path.join(os.path.dirname(os.path.abspath(__file__)), "unit.json"), "w"), indent=1)
